@@ -116,7 +116,61 @@ def nullable(e, rules, seen=()):
     return True
 
 
+def expand(e):
+    """documented expansion into core operators (mirrors Desugar in spec/PegDen.tla); used only to
+    keep generated grammars terminating"""
+    op = e[0]
+    a = e[1:]
+    subs = [expand(x) if isinstance(x, tuple) else x for x in a]
+    S = lambda *xs: ("seq",) + tuple(xs)
+    if op in ("plus",):
+        return S(S(*subs), ("star",) + tuple(subs))
+    if op == "rep_min":
+        return S(("rep", subs[0]) + tuple(subs[1:]), ("star",) + tuple(subs[1:]))
+    if op == "rep_max":
+        return expand(("rep_min_max", 0, a[0]) + tuple(a[1:]))
+    if op == "rep_min_max":
+        return S(("rep", subs[0]) + tuple(subs[2:]), ("rep_opt", subs[1] - subs[0]) + tuple(subs[2:]), ("not_at",) + tuple(subs[2:]))
+    if op in ("if_must", "opt_must"):
+        r = S(subs[0], ("must",) + tuple(subs[1:]))
+        return ("opt", r) if op == "opt_must" else r
+    if op == "star_must":
+        return ("star", S(subs[0], ("must",) + tuple(subs[1:])))
+    if op == "pad":
+        return S(("star", subs[1]), subs[0], ("star", subs[2] if len(subs) == 3 else subs[1]))
+    if op == "pad_opt":
+        return S(("star", subs[1]), ("opt", subs[0], ("star", subs[1])))
+    if op in ("list", "list_must", "list_tail"):
+        r, sp = a[0], a[1]
+        if len(a) == 3:
+            sp = ("pad", a[1], a[2])
+        if op == "list":
+            return expand(S(r, ("star", sp, r)))
+        if op == "list_must":
+            return expand(S(r, ("star", ("if_must", sp, r))))
+        if len(a) == 3:
+            return expand(S(("list",) + tuple(a), ("opt", ("star", a[2]), a[1])))
+        return expand(S(("list",) + tuple(a), ("opt", a[1])))
+    if op == "until":
+        if len(subs) == 1:
+            return S(("star", ("not_at", subs[0]), ("any",)), subs[0])
+        return S(("star", ("not_at", subs[0])) + tuple(subs[1:]), subs[0])
+    if op == "star_partial":
+        return ("star",) + tuple(subs)          # same looping behaviour: loops iff the whole body is nullable
+    if op == "star_strict":
+        return ("star",) + tuple(subs)
+    if op == "minus":
+        return ("rematch", subs[0], ("not_at", subs[1], ("eof",)))
+    if op == "if_then":
+        return ("if_then_else", subs[0], S(*subs[1:]), ("failure",))
+    return (op,) + tuple(subs)
+
+
 def loops(e, rules):
+    return loops0(expand(e), [(expand(r[0]), r[1]) for r in rules])
+
+
+def loops0(e, rules):
     """does e contain a repetition whose body may match the empty string?"""
     op = e[0]
     a = e[1:]
@@ -136,7 +190,7 @@ def loops(e, rules):
     if op in ("pad", "pad_opt"):
         if any(nullable(x, rules) for x in subs[1:]):
             return True
-    return any(loops(x, rules) for x in subs)
+    return any(loops0(x, rules) for x in subs)
 
 
 def first_refs(e, rules):
